@@ -504,3 +504,7 @@ func rapidCheck(t *testing.T, col *evid.Collector, prop func(*rapid.T)) {
 	defer col.Flush()
 	rapid.Check(t, prop)
 }
+
+type objectT = object.Object
+
+func jsonUnmarshal(raw []byte, v interface{}) error { return json.Unmarshal(raw, v) }
